@@ -122,7 +122,7 @@ def num_eq(a, b, tol, scale=Fraction(0)):
     if tol is None:
         return False
     m = max(abs(a.v), abs(b.v), scale)
-    return abs(a.v - b.v) <= tol * m
+    return abs(a.v - b.v) <= Fraction(tol) * m
 
 FLOAT_RE = re.compile(r'-?(?:inf|NaN|[0-9]+(?:\.[0-9]+)?(?:e-?[0-9]+)?)')
 
@@ -181,11 +181,17 @@ def split_sets(toks):
         out.append(('seq', cur))
     return out
 
+def safe_float(fr):
+    try:
+        return float(fr)
+    except OverflowError:
+        return math.inf if fr > 0 else -math.inf
+
 def tok_key(t):
     n = decode_num(t) if t and t[0] in 'fgq' else None
     if n is not None:
         if n.finite():
-            return (1, float(n.v), '')
+            return (1, safe_float(n.v), '')
         return (2, 0.0, str(n.v))
     if t and t[0] in 'sr':
         return (0, 0.0, t[1:])
@@ -261,7 +267,7 @@ def close(a, b, rel=1e-9):
 def q2f(tok):
     n = decode_num(tok)
     if n.finite():
-        return float(n.v)
+        return safe_float(n.v)
     return {'inf': math.inf, '-inf': -math.inf, 'nan': math.nan}[n.v]
 
 def cmp_special(op, it, mt, tol):
